@@ -398,6 +398,28 @@ def run(ctx, res):
                           "lexical alternative it stands for are dropped", g.loc())
         else:
             res.ok(rid8, "create_frontier/insert-displaces", g.loc())
+    # R9: the token acted on is selected among the terminals expected in the state it is acted on in. The LR parser lexes
+    # context-aware: after a reduction it is in another state with another expected set, and the token chosen before the
+    # reduction (among LALR-merged lookaheads) need not be expected - or be the documented winner - there (seed C06-10).
+    # Decided by the driver rule (C02-R3 `reduce/order`: .. -> reduce_action -> next_token), shared.
+    rid9 = res.rule("C06-R9", "LR: after a reduction the token is selected again among the terminals expected in the new state "
+                    "(shares the Reduce arm of the driver rule C02-R3)", floor=1)
+    sub9 = report.Result("C06", ctx.tier)
+    try:
+        rt.lr_driver(F, sub9, sub9.rule("C02-R3", "shared"))
+        hit = False
+        for v in sub9.violations:
+            if "/reduce/" in v["key"] or v["key"].endswith("/action-lookup-token"):
+                hit = True
+                res.violation(rid9, v["key"].split("/", 1)[1], v["what"], v.get("where"))
+        if not hit:
+            n9 = sum(1 for i_ in sub9.instances if i_["ok"] and str(i_["instance"]).startswith("reduce/"))
+            if n9:
+                res.ok(rid9, "reduce/relex", None, "%d clauses of the Reduce arm hold, next_token after reduce_action among them" % n9)
+            else:
+                res.undecided(rid9, "the Reduce arm of the LR driver was not recognised")
+    except mir.AnchorLost as e:
+        res.undecided(rid9, str(e))
     res.explanation = (
         "Decides the structure of lexical disambiguation: candidate set, stable descending sort and its key table (priority "
         "x 1000 + string length under most-specific), finish-flag tables, the lexer's stop table, the parser-side filters of "
